@@ -25,6 +25,13 @@ pub enum Key {
     Node(u64),
     Val(u64, u64),
 }
+fn key_of(r: &Rec) -> Key {
+    match r {
+        Rec::Azks(_, _) => Key::Azks,
+        Rec::Node(l, _) => Key::Node(*l),
+        Rec::Val(u, e, _, _) => Key::Val(*u, *e),
+    }
+}
 fn user(u: u64) -> AkdLabel {
     AkdLabel(vec![b'u', u as u8])
 }
@@ -126,13 +133,15 @@ impl Twin {
 }
 
 /// one operation sequence. regime 0: cache with long lifetimes (deterministic content, database
-/// operation counts traced); 1: no cache; 2: 2 ms lifetimes + small memory limit + real sleeps
+/// operation counts traced); 1: no cache; 2: 2 ms lifetimes + small memory limit + real sleeps; 3: long lifetimes + small memory limit
 pub async fn one_sequence(o: &mut Out, r: &mut Rng, regime: u32, nops: usize, wf: bool) {
     let db = FaultDb::new();
     let mgr = match regime {
         0 => StorageManager::new(db.clone(), Some(Duration::from_secs(3600)), None, Some(Duration::from_secs(3600))),
         1 => StorageManager::new_no_cache(db.clone()),
-        _ => StorageManager::new(db.clone(), Some(Duration::from_millis(2)), Some(300 + r.below(1500) as usize), Some(Duration::from_millis(2))),
+        2 => StorageManager::new(db.clone(), Some(Duration::from_millis(2)), Some(300 + r.below(1500) as usize), Some(Duration::from_millis(2))),
+        // 3: entries never expire, but a small memory limit sheds them under pressure (cleaning every 1 ms)
+        _ => StorageManager::new(db.clone(), Some(Duration::from_secs(3600)), Some(200 + r.below(1200) as usize), Some(Duration::from_millis(1))),
     };
     writeln!(o.lines, "mgr {} = ok", if regime == 0 { 1 } else { 0 }).unwrap();
     o.seqs += 1;
@@ -167,15 +176,64 @@ pub async fn one_sequence(o: &mut Out, r: &mut Rng, regime: u32, nops: usize, wf
             _ => F::MinEpoch,
         }
     };
+    // every third sequence starts with a transaction whose commit write is rejected, followed by reads
+    // (the records of a rejected commit must not be readable afterwards)
+    let mut script: std::collections::VecDeque<(u64, Option<bool>)> = std::collections::VecDeque::new();
+    if r.chance(1, 3) {
+        script.push_back((0, None));
+        for _ in 0..(1 + r.below(3)) {
+            script.push_back((3, Some(false)));
+        }
+        if r.chance(1, 2) {
+            script.push_back((7, Some(false)));
+        }
+        script.push_back((1, Some(r.chance(3, 4))));
+        for _ in 0..4 {
+            script.push_back((8 + r.below(8), Some(false)));
+        }
+    }
+    let mut forced_rec: Option<Rec> = None;
+    let mut forced_key: Option<Key> = None;
+    if script.is_empty() && r.chance(1, 3) {
+        if r.chance(1, 2) {
+            // a cached record rewritten inside a transaction, then read singly and in a batch
+            let rec = Rec::Node(r.below(3), r.below(4));
+            forced_rec = Some(rec);
+            script.push_back((3, Some(false)));     // set (cached)
+            script.push_back((0, None));            // begin
+            script.push_back((103, Some(false)));   // set the same key with another value
+            script.push_back((111, Some(false)));   // batch get including the key
+            script.push_back((108, Some(false)));   // get of the key
+        } else {
+            // only the epoch record is cached when the cache is flushed
+            script.push_back((104, Some(false)));   // set the epoch record
+            script.push_back((19, None));           // flush / active
+            script.push_back((119, None));          // flush
+            script.push_back((109, Some(false)));   // get the epoch record
+        }
+    }
     for _ in 0..nops {
-        if regime == 2 && r.chance(1, 6) {
+        if regime >= 2 && r.chance(1, 6) {
             tokio::time::sleep(Duration::from_millis(3)).await;
         }
-        let fail = r.chance(1, 12);
+        let scripted = script.pop_front();
+        let fail = match scripted { Some((_, Some(f))) => f, _ => r.chance(1, 12) };
+        let mut opc = match scripted { Some((o, _)) => o, None => r.below(20) };
+        // scripted variants: 10x = the op x on the remembered key / record
+        match opc {
+            3 if forced_rec.is_some() && scripted.is_some() => { forced_key = forced_rec.as_ref().map(key_of); }
+            103 => { forced_rec = forced_rec.map(|x| match x { Rec::Node(l, p) => Rec::Node(l, p + 7), o => o }); opc = 3; }
+            104 => { forced_rec = Some(Rec::Azks(1 + r.below(5), 1 + r.below(9))); forced_key = Some(Key::Azks); opc = 3; }
+            108 | 109 => { opc = 8; }
+            111 => { opc = 11; }
+            119 => { opc = 19; }
+            _ => { if scripted.is_none() { forced_rec = None; forced_key = None; } }
+        }
+        let scripted_flush = matches!(scripted, Some((119, _)));
         let before = db.op_count();
         let active = mgr.is_transaction_active();
         let mut bget_set: Option<String> = None;
-        let (q, a, read_cmp): (String, String, Option<String>) = match r.below(20) {
+        let (q, a, read_cmp): (String, String, Option<String>) = match opc {
             0 => {
                 let b = mgr.begin_transaction();
                 ("begin".into(), format!("{}", b as u8), None)
@@ -194,7 +252,7 @@ pub async fn one_sequence(o: &mut Out, r: &mut Rng, regime: u32, nops: usize, wf
                 ("rollback".into(), match &res { Ok(()) => "ok".into(), Err(e) => err(e).into() }, None)
             }
             3 | 4 | 5 | 6 => {
-                let rec = gen_rec(r);
+                let rec = if scripted.is_some() && forced_rec.is_some() { forced_rec.clone().unwrap() } else { gen_rec(r) };
                 db.fail_next.store(fail, Ordering::SeqCst);
                 let res = mgr.set(to_db(&rec)).await;
                 db.fail_next.store(false, Ordering::SeqCst);
@@ -217,9 +275,9 @@ pub async fn one_sequence(o: &mut Out, r: &mut Rng, regime: u32, nops: usize, wf
                 (format!("bset {} {} {}", k, recs.iter().map(fmt_rec).collect::<Vec<_>>().join(" "), fail as u8).replace("  ", " "), match &res { Ok(()) => "ok".into(), Err(e) => err(e).into() }, None)
             }
             8 | 9 | 10 => {
-                let k = gen_key(r);
+                let k = if scripted.is_some() && forced_key.is_some() { forced_key.clone().unwrap() } else { gen_key(r) };
                 // with an unpredictable cache (regime 2) it is unknown whether the read reaches the database
-                let fail = fail && regime != 2;
+                let fail = fail && regime < 2;
                 db.fail_next.store(fail, Ordering::SeqCst);
                 let res = get_key(&mgr, &k).await;
                 db.fail_next.store(false, Ordering::SeqCst);
@@ -229,13 +287,17 @@ pub async fn one_sequence(o: &mut Out, r: &mut Rng, regime: u32, nops: usize, wf
             }
             11 => {
                 // batch get of keys of one type
-                let ty = r.below(2);
+                let forced_node = match (&scripted, &forced_key) { (Some(_), Some(Key::Node(l))) => Some(*l), _ => None };
+                let ty = if forced_node.is_some() { 0 } else { r.below(2) };
                 let n = 1 + r.below(3) as usize;
-                let fail = fail && regime != 2;
+                let fail = fail && regime < 2;
                 db.fail_next.store(fail, Ordering::SeqCst);
                 let (ks, res, tres): (Vec<Key>, _, _) = if ty == 0 {
                     let mut ls: Vec<u64> = (0..n).map(|_| r.below(3)).collect();
-                    if regime == 2 {
+                    if let Some(l) = forced_node {
+                        if !ls.contains(&l) { ls.push(l); }
+                    }
+                    if regime >= 2 {
                         // a key requested twice is answered twice by the log/cache and once by the database
                         ls.sort();
                         ls.dedup();
@@ -246,7 +308,7 @@ pub async fn one_sequence(o: &mut Out, r: &mut Rng, regime: u32, nops: usize, wf
                     (ls.iter().map(|l| Key::Node(*l)).collect(), res, twin.st.batch_get::<TreeNodeWithPreviousValue>(&keys).await)
                 } else {
                     let mut ps: Vec<(u64, u64)> = (0..n).map(|_| (r.below(3), 1 + r.below(5))).collect();
-                    if regime == 2 {
+                    if regime >= 2 {
                         ps.sort();
                         ps.dedup();
                     }
@@ -316,7 +378,7 @@ pub async fn one_sequence(o: &mut Out, r: &mut Rng, regime: u32, nops: usize, wf
                 (format!("tomb {} {} {} {}", u, e, fail as u8, (fail_w && !fail) as u8), match &res { Ok(()) => "ok".into(), Err(e) => err(e).into() }, None)
             }
             _ => {
-                if r.chance(1, 3) {
+                if scripted_flush || r.chance(1, 3) {
                     mgr.flush_cache().await;
                     ("flush".into(), "ok".into(), None)
                 } else {
@@ -358,7 +420,7 @@ pub fn run(seed: u64, tier: u32) -> Out {
     let n = if tier == 0 { 150 } else { 3000 };
     rt.block_on(async {
         for i in 0..n {
-            let regime = match i % 5 { 0 | 1 => 0, 2 | 3 => 1, _ => 2 };
+            let regime = match i % 6 { 0 | 1 => 0, 2 => 1, 3 | 4 => 3, _ => 2 };
             let wf = i % 7 != 6;
             let nops = 8 + r.below(40) as usize;
             one_sequence(&mut o, &mut r, regime, nops, wf).await;
